@@ -87,7 +87,7 @@ func init() {
 			res.Nontrivial = res.IO["remove"] >= 2 && len(res.StateHash) >= 4
 			return res
 		},
-		Classes: classes("observe", "op", "commit-error"),
+		Classes: classes("observe", "op", "commit-error", "open-failed", "open-panic", "merge-failed"),
 		Assume:  []string{"no transaction is running while Merge runs (C17 covers the concurrent case)"},
 	})
 	c16pol := func(tier string) func(r *core.Rng) *core.SnapPolicy {
